@@ -150,6 +150,8 @@ class NetSystem(object):
               'warm'   routers announce at startup, everything delivered FIFO before the scenario starts;
               'rwarm'  as warm, then the stations' tables are emptied (stations that joined later);
               'rcold'  as warm, then the routers' tables are emptied (routers restarted);
+              'nwarm'  as warm, then every router announces Network-Number-Is on its ports (real frames): stations that
+                       did not know their network number learn it *after* they learned their routes;
               'preset' no announcements, shortest-path tables written directly (cyclic topologies)."""
 
     def __init__(self, topo, cache="warm", know="K", reply="now", tables=None, learned=None, record=False):
@@ -176,7 +178,7 @@ class NetSystem(object):
         # learned: what RecordingCache logged in an announced run of this very configuration; given that, the
         # announcements are not repeated and the tables are filled by the same calls in the same order
         self.learned = learned
-        announce = cache in ("warm", "rwarm", "rcold") and learned is None
+        announce = cache in ("warm", "rwarm", "rcold", "nwarm") and learned is None
         self.announced = announce
         self.stations = [Station(self, k, self.lans[ni], self.netnums[ni], mac, know_of(know, k), record)
                          for k, (ni, mac) in enumerate(topo["stations"])]
@@ -187,7 +189,7 @@ class NetSystem(object):
     # ---- preparation
     def start(self):
         vclock.settle()
-        if self.cache in ("warm", "rwarm", "rcold"):
+        if self.cache in ("warm", "rwarm", "rcold", "nwarm"):
             if self.announced:
                 self.wire.flush(max_frames=5000)
             else:
@@ -200,6 +202,14 @@ class NetSystem(object):
             if self.cache == "rcold":
                 for rt in self.routers:
                     rt.nsap.router_info_cache = type(rt.nsap.router_info_cache)()
+            if self.cache == "nwarm":
+                for rt in self.routers:
+                    try:
+                        rt.nse.network_number_is()
+                    except Exception as err:
+                        self.errors.append("network_number_is: %s: %s" % (type(err).__name__, str(err)[:100]))
+                    vclock.settle()
+                    self.wire.flush(max_frames=5000)
         elif self.cache == "preset":
             rt, st = self.tables
             for j, rows in enumerate(rt):
